@@ -12,6 +12,7 @@ import (
 	"github.com/lightningnetwork/lnd/channeldb"
 	"github.com/lightningnetwork/lnd/chanstate"
 	"github.com/lightningnetwork/lnd/lnwallet"
+	"github.com/lightningnetwork/lnd/lnwire"
 )
 
 // DumpCommit renders every persisted field of a commitment canonically.
@@ -390,6 +391,44 @@ func (s *Sim) CheckReload(x int) error {
 				"settle/fails: %v", name, pkg.Height, err)
 		}
 	}
+
+	return s.probeReloaded(x, fresh, snap.RemoteHtlcCounter)
+}
+
+// probeReloaded checks "the reloaded channel can continue operating" without
+// writing anything: an outgoing and an incoming add are validated on the
+// reloaded object, which makes lnd evaluate the complete restored update logs
+// against both commitment chains (balances, add/remove heights of every
+// restored entry). The adds may be refused for one of the documented
+// constraint reasons; any other error means the restored state is unusable.
+// The object is discarded afterwards.
+func (s *Sim) probeReloaded(x int, fresh *lnwallet.LightningChannel,
+	nextRemoteID uint64) error {
+
+	amt := lnwire.MilliSatoshi(1_000_000)
+	for i := 0; i < 2; i++ {
+		if m := lnwire.MilliSatoshi(s.P.MinHTLC[i]); m > amt {
+			amt = m
+		}
+	}
+	h := s.P.hashN("reload-probe", len(s.Trace))
+	out := &lnwire.UpdateAddHTLC{
+		ChanID: s.ChanID, Amount: amt, Expiry: 510, PaymentHash: h,
+	}
+	if _, err := fresh.AddHTLC(out, nil); err != nil && !IsConstraintErr(err) {
+		return violationf("%s reloaded: cannot continue, an outgoing add "+
+			"of %d msat fails with: %v", sideName(x), amt, err)
+	}
+	in := &lnwire.UpdateAddHTLC{
+		ChanID: s.ChanID, ID: nextRemoteID, Amount: amt, Expiry: 510,
+		PaymentHash: h,
+	}
+	if _, err := fresh.ReceiveHTLC(in); err != nil && !IsConstraintErr(err) {
+		return violationf("%s reloaded: cannot continue, an incoming add "+
+			"of %d msat fails with: %v", sideName(x), amt, err)
+	}
+	s.label("reloaded_object_probed")
+
 	return nil
 }
 
